@@ -328,6 +328,11 @@ H_Retain(e) ==
                \A i \in DOMAIN e.calls : LET c == e.calls[i] IN
                    Has(E, c[1]) /\ At(E, c[1])[3] = c[4] /\ At(E, c[1])[4] = c[5])
         /\ Chk("C09,C01", "retain_keeps_exactly", e, IsFull(Post(e, s)) => Cont(Post(e, s)) = kept)
+        \* C13 lists retain among the set operations whose results equal the reference set's: the reference
+        \* asks the predicate about every element
+        /\ (Pre(s).ty = "set") =>
+               Chk("C13", "set_retain_equals_reference", e,
+                   CallKeys(e.calls) = Keys(E) /\ (IsFull(Post(e, s)) => Cont(Post(e, s)) = kept))
         /\ DropsAre(e, Ids(M \ kept))
         /\ Chk("C02", "retain_moves_nothing", e,
                /\ Keys(MainE(Post(e, s))) \subseteq Keys(MainE(Pre(s)))
@@ -353,6 +358,10 @@ H_DrainFilter(e) ==
                /\ ((e.end = "exhaust" /\ ~HasF(e, "take")) => Y = matched))
         /\ Chk("C09,C01", "drain_filter_leaves_the_rest", e,
                IsFull(Post(e, s)) => Cont(Post(e, s)) = (IF complete THEN M \ matched ELSE M \ Y))
+        /\ (Pre(s).ty = "set") =>
+               Chk("C13", "set_drain_filter_equals_reference", e,
+                   /\ (complete => CallKeys(e.calls) = Keys(E))
+                   /\ (IsFull(Post(e, s)) => Cont(Post(e, s)) = (IF complete THEN M \ matched ELSE M \ Y)))
         /\ DropsAre(e, IF complete THEN Ids(matched \ Y) ELSE {})
         /\ Chk("C02", "drain_filter_moves_nothing", e,
                /\ Keys(MainE(Post(e, s))) \subseteq Keys(MainE(Pre(s)))
